@@ -107,7 +107,9 @@ def gen_merge(rng):
         if len(votes) == 1 and not pool and tp is None:
             vias.append("vote")
         recs.append(_r(id, votes, phantom, pool, tp, rng.choice(vias)))
-    return {"op": "merge", "recs": recs}
+    from ..core import CONTAINER_KINDS
+    return {"op": "merge", "recs": recs, "container": rng.choice(CONTAINER_KINDS),
+            "retry": rng.choice([None, "blank", "correct"])}
 
 
 ODD_CELLS = ["A,B", 'say "x"', " 17", "17 ", "", "a b"]
@@ -320,7 +322,28 @@ def impl(case):
     op = case["op"]
     if op == "merge":
         cvrs = [build_cvr(r) for r in case["recs"]]          # fresh objects: merge_cvrs mutates its inputs
-        out = CVR.merge_cvrs(cvrs)
+        from ..core import container, err_kind
+        try:
+            out = CVR.merge_cvrs(container(case.get("container"), cvrs))
+        except ValueError as e:
+            if not case.get("retry"):
+                raise
+            # the documented recovery from a tally-pool conflict: repair the offending records (blank the conflicting
+            # label, or correct it to the card's pool) and merge the SAME objects again
+            first = {}
+            for c in cvrs:
+                if c.tally_pool is not None:
+                    first.setdefault(_id_back(c.id), c.tally_pool)
+            for c in cvrs[1:]:
+                k = _id_back(c.id)
+                if c.tally_pool is not None and k in first and c.tally_pool != first[k]:
+                    c.tally_pool = None if case["retry"] == "blank" else first[k]
+            try:
+                out2 = CVR.merge_cvrs(cvrs)
+                retry = {"st": "ok", "recs": [canon_cvr(c) for c in out2]}
+            except Exception as e2:  # noqa
+                retry = {"st": "err", "err": err_kind(e2), "msg": str(e2)[:120]}
+            return {"st": "err", "err": "ValueError", "msg": str(e)[:120], "retry": retry}
         return {"st": "ok", "recs": [canon_cvr(c) for c in out]}
     if op == "raire":
         rows = [list(r) for r in case["rows"]]
@@ -536,9 +559,30 @@ def _oracle_raire(case, ir):
     return None
 
 
+def _repaired(case):
+    """the records after the repair `impl` makes when the first merge raised (see there)"""
+    first, out = {}, []
+    for r in case["recs"]:
+        tp = _tp_back(_tp_obj(r["tally_pool"]))
+        if tp is not None:
+            first.setdefault(r["id"], tp)
+    for i, r in enumerate(case["recs"]):
+        tp = _tp_back(_tp_obj(r["tally_pool"]))
+        if i > 0 and tp is not None and r["id"] in first and tp != first[r["id"]]:
+            r = dict(r, tally_pool=(None if case["retry"] == "blank" else first[r["id"]]))
+        out.append(r)
+    return out
+
+
 def oracle_c18(case, ir):
     if case["op"] == "merge":
-        return _oracle_merge(case["recs"], ir)
+        v = _oracle_merge(case["recs"], ir)
+        if v is None and ir.get("retry") is not None:
+            w = _oracle_merge(_repaired(case), ir["retry"])
+            if w:
+                return {"what": f"after a merge that raised on a tally-pool conflict, the conflicting records were repaired "
+                                f"({case['retry']}) and the same objects merged again: " + w["what"]}
+        return v
     return _oracle_raire(case, ir)
 
 
